@@ -100,7 +100,7 @@ struct Mon {
     if (Z.px_rules && !Z.f.times.empty()) {
       i128 y0 = orc::civ_from_secs((i128)Z.f.times.back() + Z.px.std_off).y;
       int stride = thorough ? 1 : 7;
-      for (i128 y = y0 - 1; y <= y0 + 402; ++y) {
+      for (i128 y = y0 - 1; y <= y0 + 404; ++y) {
         if (y > y0 + 3 && y < y0 + 396 && orc::fmod(y, stride) != 0) continue;
         for (i128 t : {Z.start_of(y), Z.end_of(y)})
           if (t > Z.f.times.back() && orc::fits64(t)) b.push_back((int64_t)t);
